@@ -816,6 +816,13 @@ def check_lstopo(ctx, kind, arg, tag):
             if a != b:
                 ctx.violation("lstopo-xml-bytes:" + tag, "lstopo XML output differs from hwloc_topology_export_xmlbuffer (%d vs %d bytes)" % (len(a), len(b)),
                               replay_text(kind, arg, "lstopo-no-graphics", ["--of", "xml"]))
+            # the same bytes on stdout (no file name: hwloc_topology_export_xml("-"))
+            rc2, out2, err2 = run_tool(lst, targs + ["--of", "xml"])
+            if rc2 != 0 or norm_xml(out2) != b:
+                ctx.violation("lstopo-xml-stdout-bytes:" + tag, "lstopo --of xml on stdout (rc=%d, %d bytes) differs from hwloc_topology_export_xmlbuffer (%d bytes)" % (rc2, len(out2), len(b)),
+                              replay_text(kind, arg, "lstopo-no-graphics", ["--of", "xml"]))
+            else:
+                ctx.bump("lstopo-xml-stdout-equal")
             # reload -> equivalent topology (dump equality, gp_index kept: the XML format carries it)
             ref2 = Ref(ctx.refexe)
             try:
@@ -875,6 +882,99 @@ def check_lstopo(ctx, kind, arg, tag):
             ctx.violation("refcrash:lstopo:" + tag, ref.dead, replay_text(kind, arg, "hwv_calcref", []))
     finally:
         ref.close()
+
+
+SBUF = 1024       # sizeof(sbuffer) in output_synthetic(): exports of this length or more take the malloc path
+
+
+def long_synthetic_descriptions(ctx, rng):
+    """synthetic descriptions whose EXPORT has a length around and beyond the 1024-byte stack buffer of
+    lstopo's output_synthetic(): a shuffled NUMA index list (not expressible as an interleaving) makes the
+    export long, the number of digits of the memory size tunes it to the exact boundary"""
+    ref = Ref(ctx.refexe)
+    res = []
+    try:
+        def export_len(desc):
+            l = ref.ask("topo lstopo synthetic " + desc)
+            if not l or l[0] != "load rc=0":
+                return None
+            r = ref.ask("synexport 0")
+            m = re.match(r"syn (-?\d+)", r[0]) if r else None
+            return int(m.group(1)) if m else None
+
+        def desc(n, perm, digits):
+            return "pack:%d [numa(memory=%s indexes=%s)] pu:1" % (n, "1" * digits, ",".join(map(str, perm)))
+        base = {}
+        for n in range(250, 290):
+            perm = list(range(n))
+            rng.shuffle(perm)
+            ln = export_len(desc(n, perm, 1))
+            if ln:
+                base[n] = (perm, ln)
+        for target in (SBUF - 2, SBUF - 1, SBUF, SBUF + 1, SBUF + 2, SBUF + 40):
+            for n, (perm, ln) in sorted(base.items()):
+                d = target - ln + 1
+                if 1 <= d <= 15:
+                    dd = desc(n, perm, d)
+                    if export_len(dd) == target:
+                        res.append((target, dd))
+                        break
+        for n in (400, 1500):
+            perm = list(range(n))
+            rng.shuffle(perm)
+            dd = desc(n, perm, 3)
+            ln = export_len(dd)
+            if ln:
+                res.append((ln, dd))
+    finally:
+        ref.close()
+    return res
+
+
+def check_lstopo_long_synthetic(ctx, rng):
+    """lstopo --of synthetic == hwloc_topology_export_synthetic ++ "\n", byte for byte, for export lengths
+    1022..1026 and beyond, for the export flags, on stdout and in a file (model: Calc.output_synthetic)"""
+    lst = ctx.tools["lstopo-no-graphics"]
+    descs = long_synthetic_descriptions(ctx, rng)
+    ctx.run.cov["long_synthetic_export_lengths"] = [l for l, _ in descs]
+    for k, (ln, d) in enumerate(descs):
+        ref = Ref(ctx.refexe)
+        try:
+            l = ref.ask("topo lstopo synthetic " + d)
+            if not l or l[0] != "load rc=0":
+                continue
+            for flags in (0, 1, 8, 2, 4):
+                r = ref.ask("synexport %d" % flags)
+                m = re.match(r"syn (-?\d+) ?(.*)", r[0]) if r else None
+                if not m:
+                    continue
+                exp = (m.group(2) + "\n").encode("latin-1") if int(m.group(1)) >= 0 else None
+                fout = os.path.join(ctx.tmp, "long-%d-%d.synthetic" % (k, flags))
+                for mode in ("stdout", "file"):
+                    args = ["-i", d, "--export-synthetic-flags", str(flags), "--of", "synthetic"] + ([fout] if mode == "file" else [])
+                    rc, out, err = run_tool(lst, args)
+                    if mode == "file":
+                        out = open(fout, "rb").read() if os.path.exists(fout) else b""
+                    ctx.count("lstopo-long-syn|%d|%d|%s|%d" % (ln, flags, mode, len(out)), nontrivial=True, kind="lstopo-synthetic-long",
+                              sample={"export_length": ln, "flags": flags, "mode": mode})
+                    if crashed(rc, err):
+                        ctx.violation("crash:lstopo-long-syn:%d:%d" % (ln, flags), "lstopo crashed on a synthetic export of %d characters" % ln,
+                                      replay_text("synthetic", d, "lstopo-no-graphics", args[2:], err.decode(errors="replace")[-2000:]))
+                    elif exp is None:
+                        if rc == 0 and out.strip():
+                            ctx.violation("lstopo-long-syn-status:%d:%d" % (ln, flags), "library export fails but lstopo printed %r" % out[:60],
+                                          replay_text("synthetic", d, "lstopo-no-graphics", args[2:]))
+                    elif rc != 0 or out != exp:
+                        n = min(len(out), len(exp))
+                        first = next((i for i in range(n) if out[i] != exp[i]), n)
+                        ctx.violation("lstopo-long-syn-bytes:len%d:flags%d:%s" % (len(exp) - 1, flags, mode),
+                                      "lstopo --of synthetic (%s, flags %d) rc=%d wrote %d bytes, hwloc_topology_export_synthetic + newline is %d bytes; first difference at offset %d: tool ...%r library ...%r"
+                                      % (mode, flags, rc, len(out), len(exp), first, out[max(0, first - 8):first + 4], exp[max(0, first - 8):first + 4]),
+                                      replay_text("synthetic", d, "lstopo-no-graphics", args[2:]))
+                    else:
+                        ctx.bump("lstopo-long-syn-equal-%s" % ("ge1024" if len(exp) - 1 >= SBUF else "lt1024"))
+        finally:
+            ref.close()
 
 
 def norm_xml(b):
@@ -1247,8 +1347,9 @@ def check(run, replay=None):
             if (c["kind"], c["arg"]) not in topos:
                 topos.append((c["kind"], c["arg"]))
                 seeds.append(rng.getrandbits(64))
+        lrng = random.Random(rng.getrandbits(64))
         with concurrent.futures.ThreadPoolExecutor(max_workers=max(4, C.NCPU)) as ex:
-            futs = [ex.submit(one, i) for i in range(len(topos))]
+            futs = [ex.submit(one, i) for i in range(len(topos))] + [ex.submit(check_lstopo_long_synthetic, ctx, lrng)]
             for f in futs:
                 f.result()
         run.cov["topologies"] = {"synthetic": sum(1 for t in topos if t[0] == "synthetic"), "xml": sum(1 for t in topos if t[0] == "xml")}
